@@ -24,6 +24,7 @@ var adapterFor = map[string]string{
 	"(*reverseChannels).add":          "registryAdd",
 	"(*tunnelChannel).Err":            "channelErr",
 	"(*tunnelClientStream).readMsg":   "clientReadMsg",
+	"(*tunnelServerStream).readMsg":   "serverReadMsg",
 	"(*tunnelChannel).recvLoop":       "negotiate",
 }
 
